@@ -17,9 +17,10 @@ use std::panic::{AssertUnwindSafe, catch_unwind};
 use std::str::FromStr;
 use std::sync::{Arc, Barrier};
 
-pub const VARIANTS: [&str; 17] = [
+pub const VARIANTS: [&str; 19] = [
     "sign", "verify-good", "verify-bad", "encrypt", "decrypt-good", "decrypt-bad", "decrypt-wrong-aad", "unwrap-good", "unwrap-bad",
     "pw-unwrap-wrong-password", "unseal-good", "unseal-bad", "id", "clone-drop", "public-key", "pw-unwrap-good", "pw-unwrap-rejected-params",
+    "verify-zero-signature", "decrypt-zero-body",
 ];
 
 /// Progress heartbeat: an operation of the library that does not return is data, not a tool failure.  The watchdog
@@ -68,6 +69,8 @@ struct Material {
     tok_local_bad: String,
     tok_public: String,
     tok_public_bad: String,
+    tok_public_zero: String,
+    tok_local_zero: String,
     pie: String,
     pie_bad: String,
     pw: String,
@@ -118,6 +121,20 @@ fn material<B: Backend>(rng: &mut Prng) -> Material {
         pw_rejected_params,
         tok_local_bad: flip_mid(&tok_local),
         tok_public_bad: flip_mid(&tok_public),
+        // degenerate tokens: the signature (all of a public token's bytes after the message) and a whole local body of zero bytes
+        tok_public_zero: {
+            let hdr = crate::drive_tokens::header::<B, Public>();
+            let (p, f) = crate::drive_tokens::split_token(&tok_public, hdr.len()).unwrap();
+            let ml = b"claims-public".len();
+            let mut z = p.clone();
+            z[ml..].fill(0);
+            crate::drive_tokens::token_string::<B, Public>(&z, &f)
+        },
+        tok_local_zero: {
+            let hdr = crate::drive_tokens::header::<B, Local>();
+            let (p, f) = crate::drive_tokens::split_token(&tok_local, hdr.len()).unwrap();
+            crate::drive_tokens::token_string::<B, Local>(&vec![0u8; p.len()], &f)
+        },
         pie_bad: flip_mid(&pie),
         sealed_bad: flip_mid(&sealed),
         local,
@@ -165,6 +182,8 @@ fn apply<B: Backend>(v: &str, k: &Keys<B>, m: &Material, check: &Keys<B>) -> (Ou
             let s = if v == "verify-good" { &m.tok_public } else { &m.tok_public_bad };
             (r(SealedToken::<B::V, Public, Raw>::from_str(s).and_then(|t| t.unseal(&k.public, aad, &nv())).map(|u| u.claims.0)), true, true)
         }
+        "verify-zero-signature" => (r(SealedToken::<B::V, Public, Raw>::from_str(&m.tok_public_zero).and_then(|t| t.unseal(&k.public, aad, &nv())).map(|u| u.claims.0)), true, true),
+        "decrypt-zero-body" => (r(SealedToken::<B::V, Local, Raw>::from_str(&m.tok_local_zero).and_then(|t| t.unseal(&k.local, aad, &nv())).map(|u| u.claims.0)), true, true),
         "decrypt-good" | "decrypt-bad" | "decrypt-wrong-aad" => {
             let s = if v == "decrypt-bad" { &m.tok_local_bad } else { &m.tok_local };
             let a: &[u8] = if v == "decrypt-wrong-aad" { b"other" } else { aad };
